@@ -320,7 +320,7 @@ def write_container(path, world, reads, fmt, order_key=None, shuffle=None, extra
 
     cname = world["contig"]["name"]
     clen = len(world["contig"]["seq"])
-    sq = [{"SN": cname, "LN": clen}, {"SN": "other", "LN": 5000}]
+    sq = [{"SN": cname, "LN": clen}, {"SN": "other", "LN": clen}]
     header = pysam.AlignmentHeader.from_dict({"HD": {"VN": "1.6"}, "SQ": sq})
     recs = list(reads) + list(extra or [])
     if shuffle is not None:
@@ -542,8 +542,7 @@ def run_segment(seg):
         elif kind == 1:
             base["cigar"] = [["H", 5]] + [c for c in base["cigar"] if c[0] not in ("H",)]
         elif kind == 2:
-            base["other"] = True
-            base["start"] = min(base["start"], 4000)
+            base["other"] = True  # same coordinates, another contig
         elif kind == 3:
             base["start"] = hi + 300 + j
         else:
@@ -571,12 +570,12 @@ def run_segment(seg):
             write_container(path, world, reads, "bam", order_key=key_ties, shuffle=plan["shuffle"])
         elif d == "sam_text":
             path = os.path.join(rd, f"{d}.sam")
-            write_container(path, world, reads, "sam", shuffle=plan["shuffle"] + 1)
+            write_container(path, world, reads, "sam", shuffle=plan["shuffle"] + 1, extra=extras)
         elif d == "seam_shuffle":
             write_container(path, world, reads, "bam", order_key=key_sorted)
             SIM.cfg["stream"] = {"shuffle": plan["shuffle"] + 2}
         elif d == "seam_noindex":
-            write_container(path, world, reads, "bam", order_key=key_sorted)
+            write_container(path, world, reads, "bam", order_key=key_sorted, extra=extras)
             SIM.cfg["stream"] = {"shuffle": plan["shuffle"] + 3, "hide_index": True}
         elif d == "resplit":
             use = [r if r.get("unmapped") else resplit(rng, r, contig) for r in reads]
